@@ -21,7 +21,10 @@ import (
 
 	"github.com/dadrus/heimdall/internal/cache"
 	"github.com/dadrus/heimdall/internal/cache/memory"
+	"github.com/dadrus/heimdall/internal/config"
+	config2 "github.com/dadrus/heimdall/internal/rules/config"
 	"github.com/dadrus/heimdall/internal/rules/endpoint"
+	"github.com/dadrus/heimdall/internal/x/testsupport"
 	"github.com/dadrus/heimdall/internal/zzverif/c18"
 	"github.com/dadrus/heimdall/internal/zzverif/vf"
 )
@@ -45,8 +48,12 @@ type c18HTTPCase struct {
 	Hist  []c18Poll `json:"hist"`
 }
 
+// "other*": media types ParseRules does not accept — among them the accepted ones with a parameter or in
+// another spelling, which it compares literally
 var c18CTs = map[string]string{
 	"yaml": "application/yaml", "json": "application/json", "other": "text/plain", "none": "",
+	"other-param": "application/yaml; charset=utf-8", "other-case": "Application/JSON",
+	"other-octet": "application/octet-stream", "other-textyaml": "text/yaml", "other-xyaml": "application/x-yaml",
 }
 
 // the answer the server gives next, per endpoint path
@@ -218,7 +225,7 @@ func c18GenResp(r *vf.Rand, ncid int) c18Resp {
 		case y < 25:
 			resp.CT = "json"
 		case y < 33:
-			resp.CT = "other"
+			resp.CT = vf.Pick(r, []string{"other", "other-param", "other-case", "other-octet", "other-textyaml", "other-xyaml"})
 		case y < 38:
 			resp.CT = "none"
 		}
@@ -313,7 +320,7 @@ func c18HTTPCorpus() []c18HTTPCase {
 // ParseRules calls a body "empty" when its first 1-byte Read reports io.EOF — which
 // net/http does for bodies of at most one byte — and any other body is unusable
 func c18ModelBody(resp c18Resp) string {
-	if resp.CT == "other" || resp.CT == "none" {
+	if strings.HasPrefix(resp.CT, "other") || resp.CT == "none" {
 		switch {
 		case len(resp.Body.Bytes(nil)) <= 1:
 			return "CE"
@@ -334,7 +341,7 @@ func c18HTTPCoq(c c18HTTPCase, steps []c18.Step) string {
 		switch p.R.Kind {
 		case "http":
 			ct := p.R.CT
-			if ct == "none" {
+			if ct == "none" || strings.HasPrefix(ct, "other") {
 				ct = "other"
 			}
 
@@ -425,5 +432,225 @@ func TestVerifC18HTTP(t *testing.T) {
 
 	for i := 0; i < n; i++ {
 		emit("generated", c18HTTPGen(root.Fork(uint64(i))))
+	}
+}
+
+// ---- the scheduler: real newProvider + Start (gocron jobs), a few fixed scenarios --------------------
+//
+// The polls are made by the provider's own scheduler (watch_interval 20 ms).  The driver waits — on a
+// channel fed by the server, never by sleeping — until a given number of polls have been answered since the
+// endpoint's content last changed, then collects the processor calls of that phase.  A provider that polls
+// only once is seen as "stalled"; polls of one endpoint that overlap (the handler takes longer than the
+// interval) are counted by the server.
+
+type c18SchedPhase struct {
+	R c18Resp `json:"resp"`
+}
+
+func c18SchedRun(t *testing.T, srv *c18Server, idx int, interval string, phases []c18SchedPhase, rejList []int) (
+	steps []c18.Step, stalled bool, overlaps int,
+) {
+	rej := map[int]bool{}
+	for _, r := range rejList {
+		rej[r] = true
+	}
+
+	path := fmt.Sprintf("/sched%d/e0", idx)
+	url := srv.srv.URL + path
+
+	rec := c18.NewRecorder(func(src string) (bool, int, int, bool) {
+		return false, 0, 0, src == "http_endpoint:"+url
+	}, nil)
+
+	for cid := 0; cid < 32; cid++ {
+		rec.Register(cid, c18.ValidBytes(cid, rej[cid]))
+	}
+
+	var (
+		mu       sync.Mutex
+		inflight int
+	)
+
+	answered := make(chan struct{}, 1024)
+	srec := &c18LockedRec{rec: rec}
+
+	setPhase := func(resp c18Resp) {
+		body := resp.Body.Bytes(rej)
+
+		srv.set(path, func(w http.ResponseWriter, _ *http.Request) {
+			mu.Lock()
+			inflight++
+			if inflight > 1 {
+				overlaps++
+			}
+			mu.Unlock()
+
+			time.Sleep(30 * time.Millisecond) // longer than the watch interval: overlapping polls would show
+
+			w.Header().Set("Content-Type", c18CTs[resp.CT])
+			w.WriteHeader(resp.Status)
+			w.Write(body)
+
+			mu.Lock()
+			inflight--
+			mu.Unlock()
+
+			select {
+			case answered <- struct{}{}:
+			default:
+			}
+		})
+	}
+
+	setPhase(phases[0].R)
+
+	yaml := "endpoints:\n- url: " + url + "\n"
+	if interval != "" {
+		yaml = "watch_interval: " + interval + "\n" + yaml
+	}
+
+	providerConf, err := testsupport.DecodeTestConfig([]byte(yaml))
+	if err != nil {
+		t.Fatal(err)
+	}
+
+	cch, _ := memory.NewCache(nil, nil, nil)
+
+	prov, err := newProvider(&config.Configuration{Providers: config.RuleProviders{HTTPEndpoint: providerConf}},
+		cch, srec, zerolog.Nop())
+	if err != nil {
+		t.Fatal(err)
+	}
+
+	if err = prov.Start(context.Background()); err != nil {
+		t.Fatal(err)
+	}
+
+	defer prov.Stop(context.Background()) //nolint:errcheck
+	defer srv.set(path, nil)
+
+	for i, ph := range phases {
+		if i > 0 {
+			setPhase(ph.R)
+		}
+
+		// drain, then wait for three more answered polls: the last two certainly saw this phase's content
+		for len(answered) > 0 {
+			<-answered
+		}
+
+		for n := 0; n < 3 && !stalled; n++ {
+			select {
+			case <-answered:
+			case <-time.After(20 * time.Second):
+				stalled = true
+			}
+		}
+
+		// the processor is called after the response was read: let the poll in flight finish
+		srec.mu.Lock()
+		calls := rec.Take()
+		srec.mu.Unlock()
+
+		// the ACCEPTED calls: how often a rejected version is re-submitted depends on how many polls happened
+		acc := []c18.Call{}
+
+		for _, cl := range calls {
+			if cl.Ok {
+				acc = append(acc, cl)
+			}
+		}
+
+		steps = append(steps, c18.Step{Calls: acc, Known: []int{-2}})
+
+		if stalled {
+			break
+		}
+	}
+
+	return steps, stalled, overlaps
+}
+
+type c18LockedRec struct {
+	mu  sync.Mutex
+	rec *c18.Recorder
+}
+
+func (l *c18LockedRec) OnCreated(rs *config2.RuleSet) error {
+	l.mu.Lock()
+	defer l.mu.Unlock()
+
+	return l.rec.OnCreated(rs)
+}
+
+func (l *c18LockedRec) OnUpdated(rs *config2.RuleSet) error {
+	l.mu.Lock()
+	defer l.mu.Unlock()
+
+	return l.rec.OnUpdated(rs)
+}
+
+func (l *c18LockedRec) OnDeleted(rs *config2.RuleSet) error {
+	l.mu.Lock()
+	defer l.mu.Unlock()
+
+	return l.rec.OnDeleted(rs)
+}
+
+func TestVerifC18HTTPSched(t *testing.T) {
+	w := vf.NewWriter()
+	defer w.Close()
+
+	srv := c18NewServer()
+	defer srv.srv.Close()
+
+	ok := func(c int) c18SchedPhase {
+		return c18SchedPhase{c18Resp{Kind: "http", Status: 200, CT: "yaml", Body: c18.Content{Kind: c18.Valid, Cid: c}}}
+	}
+	other := func(status int, k string) c18SchedPhase {
+		return c18SchedPhase{c18Resp{Kind: "http", Status: status, CT: "yaml", Body: c18.Content{Kind: k}}}
+	}
+
+	scenarios := [][]c18SchedPhase{
+		{ok(1), ok(2), other(200, c18.Invalid), ok(3), other(404, c18.Empty), ok(1)},
+		{ok(1), ok(1), other(200, c18.Empty), ok(2)},
+		{other(503, c18.Empty), ok(2), other(500, c18.Empty), ok(2)},
+	}
+
+	for idx, phases := range scenarios {
+		if !vf.Want(idx) {
+			continue
+		}
+
+		steps, stalled, overlaps := c18SchedRun(t, srv, idx, "20ms", phases, []int{3})
+
+		// as a history of polls: two polls per phase that was observed, the first carries the phase's calls
+		var (
+			evs []string
+			obs []string
+		)
+
+		for i := range steps {
+			ev := fmt.Sprintf("(0, RH %s yaml %s)", vf.CoqZ(int64(phases[i].R.Status)), phases[i].R.Body.Coq())
+			evs = append(evs, ev, ev)
+			obs = append(obs, vf.CoqListOf(steps[i].Calls, c18.Call.Coq), "[]")
+		}
+
+		tags := []string{"sched"}
+		if stalled {
+			tags = append(tags, "stalled")
+		}
+
+		if overlaps > 0 {
+			tags = append(tags, "overlapping-polls")
+		}
+
+		w.Put(vf.Obs{
+			I: idx, Stream: "corpus", In: map[string]any{"phases": phases, "interval": "20ms"},
+			Out: map[string]any{"steps": steps, "stalled": stalled, "overlaps": overlaps},
+			Coq: fmt.Sprintf("(hsc [3] [%s] [%s] %s %s %d)", strings.Join(evs, "; "), strings.Join(obs, "; "),
+				vf.CoqBool(stalled), vf.CoqBool(overlaps > 0), len(phases)),
+			Nontrivial: c18.Nontrivial(steps), Tags: tags,
+		})
 	}
 }
